@@ -131,7 +131,7 @@ def probe_variants2():
     """which of the two repairs (findings/dtextract2/*.diff) the working tree contains — fixed probes through the real
     English date-period extractor"""
     exs = dict(extractors('en-us'))
-    v = {'yearPeriodEnd': False, 'centuryOffset': False}
+    v = {'yearPeriodEnd': False, 'centuryOffset': False, 'dtpDurShift': False}
     dp = exs.get('date_period_extractor')
     try:
         t = dp.match_year_period('2010-2015')
@@ -144,6 +144,11 @@ def probe_variants2():
         v['centuryOffset'] = any(x.end == len(q) for x in t)
     except Exception:
         pass
+    try:
+        t = exs['date_time_period_extractor'].match_duration('  past 3 hours', REF)
+        v['dtpDurShift'] = any(x.start == 2 for x in t)
+    except Exception:
+        pass
     dx._S['rec'].frames.clear()
     dx._S['rec'].stack.clear()
     return v
@@ -151,7 +156,7 @@ def probe_variants2():
 
 def wstr():
     v = _S.get('variant2') or {}
-    return '%s:%s' % (b(v.get('yearPeriodEnd')), b(v.get('centuryOffset')))
+    return '%s:%s:%s' % (b(v.get('yearPeriodEnd')), b(v.get('centuryOffset')), b(v.get('dtpDurShift')))
 
 
 # ------------------------------------------------------------------ frame -> driver line
@@ -467,11 +472,13 @@ def conv_dtp_mdur(fr):
     ex = fr['args'][0]
     if ex.config.check_both_before_after:
         return {'skipped': 'check_both_before_after is set'}
-    src = fr['args'][1].strip().lower()
     log = fr['log']
     sub = next(iter(subs(log, 'duration_extractor')), None)
     if sub is None:
         return {'problem': 'datetimeperiod match_duration: no duration_extractor call'}
+    src = sub[3]            # the string the function works on (`source.strip().lower()`)
+    orig = fr['args'][1]
+    lead = len(orig) - len(orig.lstrip()) - (len(src) - len(src.lstrip()))
     tu = res(log, 'time_unit_regex', 'search')[:len(sub[4])]
     durs = [(x[0], x[1]) for x, e in zip(sub[4], tu) if e[4] is not None]
     rest = [e for e in log if (e[0] == 'frame' and e[1]['kind'] == 'dtp2.within') or
@@ -542,8 +549,7 @@ def conv_dtp_mdur(fr):
                                str(plen), b(nid), b(dua), ocm(ps), ocm(ns), ocm(fs)]))
         if m is not None and seg and unit:
             break
-    lead = len(fr['args'][1]) - len(fr['args'][1].lstrip())
-    return {'op': 'dy.dtpdur\t' + ('|'.join(items) if items else '-'), 'n_text': n,
+    return {'op': 'dy.dtpdur\t%s\t%d\t%s' % (wstr(), lead, '|'.join(items) if items else '-'),
             'hyp': {'DtpDurOK': hyp, 'tokens_with_leading_blanks': (len(fr['out'] or []) if lead else 0),
                     'previous_suffix': sum(1 for it in items if it.split('/')[13].endswith(':1'))}}
 
@@ -992,13 +998,15 @@ def unit_ops(tasks, nproc=16, timeout=15.0):
 # ------------------------------------------------------------------ the check
 
 WITNESSES = [
-    ('dy.century\t0:0\t22\t18:3:0:1:0:1:21', '18:43', 'pt-br "I\'ll be back at 9:00a.": text.index(".") added to an absolute offset'),
-    ('dy.century\t1:1\t22\t18:3:0:1:0:1:21', '18:22', 'repaired: ordinal + "."'),
-    ('dy.year\t0:0\t8:17:1', '8:-1', '"tel 138-2010-2015": Token(start, start - length)'),
-    ('dy.year\t1:0\t8:17:1', '8:17', 'repaired: the match'),
+    ('dy.century\t0:0:0\t22\t18:3:0:1:0:1:21', '18:43', 'pt-br "I\'ll be back at 9:00a.": text.index(".") added to an absolute offset'),
+    ('dy.century\t1:1:1\t22\t18:3:0:1:0:1:21', '18:22', 'repaired: ordinal + "."'),
+    ('dy.year\t0:0:0\t8:17:1', '8:-1', '"tel 138-2010-2015": Token(start, start - length)'),
+    ('dy.year\t1:0:0\t8:17:1', '8:17', 'repaired: the match'),
     ('dy.prefix\t27:6:1:9:24', '9:33', '"  tomorrow late in the day monday": match.start() of the stripped prefix used as a source offset'),
     ('dy.single\t10:17\t-\t1:0:9:1:0:0', 'err:AttributeError', 'less-than in front of a relative date: match.index on a Match'),
-    ('dy.dtpdur\t0/7/0/0:0:0/0/0/0/0:0:0:0/0:0:0:0/-/0/0/0/1:0:8:1/0:0:0:0/0:0:0:0', '0:16', '"previous" suffix: + 1'),
+    ('dy.dtpdur\t0:0:0\t0\t0/7/0/0:0:0/0/0/0/0:0:0:0/0:0:0:0/-/0/0/0/1:0:8:1/0:0:0:0/0:0:0:0', '0:16', '"previous" suffix: + 1'),
+    ('dy.dtpdur\t0:0:0\t2\t5/7/0/0:0:0/0/0/0/1:0:4:1/0:0:0:0/-/0/1/0/0:0:0:0/0:0:0:0/0:0:0:0', '0:12', '"  past 3 hours": offsets of the stripped text used as text offsets'),
+    ('dy.dtpdur\t0:0:1\t2\t5/7/0/0:0:0/0/0/0/1:0:4:1/0:0:0:0/-/0/1/0/0:0:0:0/0:0:0:0/0:0:0:0', '2:14', 'repaired: moved right by the stripped leading blanks'),
     ('dy.dtp2\t0:3,12:3,30:3\t4:7,16:7,34:7\t1,1,1,1,1', '0:11,16:33', 'second loop: index += 3 after a token'),
     ('dy.dws\t10\t0:3,0:3\t4:6,4:3\t1,1\t-', None, 'merge_date_with_time_period_suffix replay'),
     ('dy.each\t-\t0:6/0/0:6:1', '0:7', 'set_week_day match without a plural ending: + 1 leaves the text'),
